@@ -81,7 +81,7 @@ def not_started_predicates(an: Analysis):
     list of (fn, test node, form) with form in 'inspect' | 'f_lasti' | None
     """
     result = []
-    for name, fn in sorted(an.p.classes[TASK].methods.items()):
+    for name, fn in sorted(_class_methods(an, TASK).items()):
         for node in ast.walk(fn.node):
             # wherever the runner's state is compared: if-tests, conditional expressions
             # or a local that holds the outcome
@@ -90,9 +90,20 @@ def not_started_predicates(an: Analysis):
     return result
 
 
+def _class_methods(an: Analysis, cls_qn: str) -> dict:
+    """methods of the class and of the classes of the package it derives from (nearest
+    definition wins)"""
+    methods = {}
+    for entry in reversed(an.p.classes[cls_qn].mro):
+        info = an.p.classes.get(entry)
+        if info is not None:
+            methods.update(info.methods)
+    return methods
+
+
 def _reaches(an: Analysis, cls_qn: str, start: str, targets) -> bool:
     """``self.<name>`` uses lead from method ``start`` to one of the methods ``targets``"""
-    methods = an.p.classes[cls_qn].methods
+    methods = _class_methods(an, cls_qn)
     seen, todo = set(), [start]
     while todo:
         name = todo.pop()
